@@ -3,6 +3,7 @@ Parsing of Pauli string
 """
 LOWCASE = "_"
 SIZE = "s"
+DIGITS = "0123456789"
 GATES = {"I", "X", "Y", "Z"}
 TOKENS = GATES.copy()
 TOKENS.add(LOWCASE)
@@ -32,13 +33,11 @@ def _is_number(char: str) -> bool:
     Raises:
         ValueError: If the input char format is invalid.
     """
-    try:
-        int(char)
+    if char in DIGITS:
         return True
-    except ValueError as e:
-        if char not in TOKENS:
-            raise ValueError("Invalid pauli string: unexpected character") from e
-        return False
+    if char not in TOKENS:
+        raise ValueError("Invalid pauli string: unexpected character")
+    return False
 
 
 def _to_int(position: str) -> int:
@@ -52,10 +51,9 @@ def _to_int(position: str) -> int:
     Raises:
         ValueError: If the input position format is invalid.
     """
-    try:
-        return int(position)
-    except ValueError as e:
-        raise ValueError("Invalid pauli string: position must be a number") from e
+    if not position or any(char not in DIGITS for char in position):
+        raise ValueError("Invalid pauli string: position must be a number")
+    return int(position)
 
 
 def pauli_string_parser(pauli_string: str) -> str:
